@@ -75,6 +75,9 @@ def _work(task):
         if hasattr(_MOD, "init_worker"):
             _MOD.init_worker(_TIER, _SEED)
         _INITED = True
+        if os.environ.get("VERIF_COVERAGE"):
+            from . import linecov
+            linecov.enable(_MOD.ID)
     n = 0
     nt = set()
     hist = {}
@@ -108,6 +111,9 @@ def _work(task):
     except Exception:
         return {"error": "harness error in %s[%d]: %s" % (name, i, traceback.format_exc())}
     _HISTORY.append([si, lo, hi])
+    if os.environ.get("VERIF_COVERAGE"):
+        from . import linecov
+        linecov.flush()
     return {"si": si, "lo": lo, "hi": hi, "n": n, "nt": nt, "hist": hist, "viol": viol,
             "samples": samples}
 
